@@ -256,7 +256,9 @@ int cp_vbnn_ver(const ec_t r, const bn_t z, const bn_t h, const uint8_t *id,
 		bn_mod(_h, _h, n);
 		RLC_FREE(buf);
 
-		if (bn_cmp(h, _h) == RLC_EQ) {
+		/* The scalar components lie in [0, n - 1] (h is compared with _h < n). */
+		if (bn_sign(z) == RLC_POS && bn_cmp(z, n) == RLC_LT &&
+				bn_cmp(h, _h) == RLC_EQ) {
 			result = 1;
 		} else {
 			result = 0;
